@@ -55,9 +55,6 @@ var (
 )
 
 func init() {
-	Registry["C11"] = func(r *core.Run) { panicScope(r, entriesC11...) }
-	Registry["C19"] = func(r *core.Run) { panicScope(r, entriesC19...) }
-	Registry["C09"] = func(r *core.Run) { panicScope(r, entriesC09...) }
 	Registry["C18"] = func(r *core.Run) { panicScope(r, entriesC18...) }
 	Registry["C05"] = func(r *core.Run) { panicScope(r, entriesC05...) }
 	Registry["C16"] = func(r *core.Run) { panicScope(r, entriesC16...) }
